@@ -80,6 +80,42 @@ def extract(src, what, sig_rx):
     return src[m.end():end - 1]
 
 
+def inline_helpers(toks, src, fn, depth=0):
+    """normalisation before parsing: `T* const x` -> `T* x`; a call `name(ident)` of a one-parameter helper defined in the
+    class as `R name(P param) {return EXPR;}` -> `(EXPR[param := ident])`; a statement `name(ident);` of a helper
+    `void name(P param) {BODY}` -> `{BODY[param := ident]}` (helpers may use helpers; locals of a helper must not clash)"""
+    if depth > 4:
+        raise Refuse(f"{fn}: helper calls nested too deeply")
+    out, i = [], 0
+    while i < len(toks):
+        t = toks[i]
+        if t == "const" and out and out[-1] == "*":
+            i += 1
+            continue
+        if (re.fullmatch(r"[A-Za-z_]\w*", t) and i + 3 < len(toks) and toks[i + 1] == "(" and toks[i + 3] == ")"
+                and re.fullmatch(r"[A-Za-z_]\w*", toks[i + 2]) and (not out or out[-1] not in (".", "->", "new", "~"))):
+            arg = toks[i + 2]
+            ms = list(re.finditer(r"(?:static\s+)?(?:inline\s+)?(void|(?:const\s+)?\w+\s*[*&]?)\s+" + t +
+                                  r"\s*\(\s*(?:const\s+)?\w+\s*[*&]?\s*(?:const\s+)?(\w+)\s*\)\s*(?:const\s*)?\{", src))
+            if len(ms) == 1 and ms[0].group(1).strip() not in ("return", "else", "new"):
+                m = ms[0]
+                body = tokenize(src[m.end():balanced(src, m.end() - 1) - 1])
+                body = [arg if b == m.group(2) else b for b in body]
+                body = inline_helpers(body, src, fn, depth + 1)
+                if m.group(1).strip() == "void":
+                    if i + 4 < len(toks) and toks[i + 4] == ";" and (not out or out[-1] in (";", "{", "}", ")", "else")):
+                        out += ["{"] + body + ["}"]
+                        i += 5
+                        continue
+                elif body and body[0] == "return" and body[-1] == ";" and body.count(";") == 1:
+                    out += ["("] + body[1:-1] + [")"]
+                    i += 4
+                    continue
+        out.append(t)
+        i += 1
+    return out
+
+
 # ---- parser ----------------------------------------------------------------------------------------------------------
 class P:
     def __init__(self, toks, fn, src):
@@ -172,7 +208,7 @@ class P:
                 while self.eat() != ";":
                     pass
                 return ("construct", m.group(1), m.group(2))
-            m = re.fullmatch(r"Item\*(\w+)=\(Item\*\)&value-1", text)
+            m = re.fullmatch(r"Item\*(\w+)=\(?\(Item\*\)&value-1\)?", text)
             if m:
                 while self.eat() != ";":
                     pass
@@ -580,7 +616,9 @@ def check_append_overloads(src):
     # allocateFreeItem: take the head of the free list (allocating a block when it is empty) and return the element slot
     # behind its header, leaving `freeItem` pointing at it for linkFreeItem
     body = re.sub(r"\s+", "", extract(src, "PoolList::allocateFreeItem", r"T\s*\*\s*allocateFreeItem\s*\(\s*\)"))
-    if not re.fullmatch(r"Item\*item=freeItem;if\(!item\)\{.*newchar\[.*freeItem=item;\}return\(T\*\)\(item\+1\);", body):
+    body = "".join(inline_helpers(tokenize(extract(src, "PoolList::allocateFreeItem", r"T\s*\*\s*allocateFreeItem\s*\(\s*\)")), src,
+                                  "PoolList::allocateFreeItem"))
+    if not re.fullmatch(r"Item\*item=freeItem;if\(!item\)\{.*newchar\[.*freeItem=item;\}return\(?\(T\*\)\(item\+1\)\)?;", body):
         raise Refuse("PoolList::allocateFreeItem is not `Item* item = freeItem; if(!item) {<block allocation> freeItem = item;} "
                      "return (T*)(item + 1);`")
     if sorted(arities) != list(range(len(arities))):
@@ -603,7 +641,7 @@ def generate(repo, out_path):
         src = srcs[header]
         fn = f"{ns}::{name}"
         body = extract(src, fn, rx)
-        p = P(tokenize(body), fn, src)
+        p = P(inline_helpers(tokenize(body), src, fn), fn, src)
         stmts = p.stmts()
         if p.peek() is not None:
             raise Refuse(f"{fn}: trailing tokens")
